@@ -160,17 +160,17 @@ def oracle_mgr(case, impl, want="all"):
                             elapsed, before["iv"], before["t"])
                 if act["t"] == 1 and act["id"] not in pend:
                     pend.append(act["id"])
-            # failures in a row on an endpoint, counted from the history alone: since the election that made it the active
-            # endpoint (OnChange) or its last successful query, whatever the object says its count is
-            for e in ocs:
-                streak[key(e)] = 0
+            # failures in a row on the ACTIVE OBJECT, counted from the history alone: since the election that made it the
+            # active endpoint (OnChange) or its last successful query, whatever the object says its count is.  Queries that
+            # were started on an earlier object (still in flight when the manager moved on) do not count for the new one.
+            if ocs and act is not None:
+                streak[act["id"]] = 0
             if kind == "F" and obj is not None:
                 before = objs.get(obj["id"])
                 ok = op[-1] == "o"
-                k_ep = key(obj["ep"])
-                streak[k_ep] = 0 if ok else streak.get(k_ep, 0) + 1
-                if (not ok and streak[k_ep] == thr and before is not None and before["t"] == 0 and obj["t"] != 1
-                        and act is not None and key(act["ep"]) == k_ep):
+                streak[obj["id"]] = 0 if ok else streak.get(obj["id"], 0) + 1
+                if (not ok and streak[obj["id"]] == thr and before is not None and before["t"] == 0 and obj["t"] != 1
+                        and act is not None and act["id"] == obj["id"]):
                     return ("%d queries in a row have failed on %s since it became the active endpoint / last answered one "
                             "(error threshold %d) and no election was started (the manager counts %d)" % (thr, obj["ep"], thr, obj["errs"]))
                 if ok and obj["errs"] != 0:
